@@ -626,6 +626,19 @@ impl ConnectionEngine {
         outcome is Err && outcome->Err_0 is RemoteClosed ==> final(self).connection.stop_set@ == Some(ConnectionStopReason::RemoteClosed),
         final(self).transport.sent@ == old(self).transport.sent@,                                                        // [C12.nothing-after-close] tearing the engine down writes no frame
 //@@ end
+
+//@@ fn file=fe2o3-amqp/src/connection/engine.rs impl=`~impl<Io,C>ConnectionEngine<Io,C>whereIo:AsyncRead+AsyncWrite+std::fmt::Debug+SendBound+Unpin+'static,C:endpoint::Connection<State=ConnectionState>` name=event_loop as=event_loop_arm_session_frames
+//@@ selectarm `frame = self.outgoing_session_frames.recv()`
+//@@ addparam frame: Option<SessionFrame>
+//@@ addparam outgoing_session_frames_done: &mut bool
+//@@ param tx : OutcomeTx
+//@@ ret (Result<Running, ConnectionInnerError>, bool)
+//@@ subst `(mut self,` => `(&mut self,` rule=R32
+//@@ subst `outgoing_session_frames_done` => `(*outgoing_session_frames_done)` rule=optional-R33
+//@@ spec
+    ensures
+        frame is None ==> !r.1,      // [C15.engine.closed-channel-not-polled-again] `recv()` on the sessions' frame channel yields None only when the channel is closed and drained (connection.close()), and then on every poll at once: the select branch that polls it is disabled once it has seen None -- otherwise the engine spins (one core at 100 %) while it waits for the peer's Close
+//@@ end
 }
 #[verifier::external_body]
 pub fn str_pipelined() -> (r: String) { unimplemented!() }
